@@ -16,7 +16,7 @@ from .. import carrier, cover, itpspec, ref
 LEVEL = 'exploration'
 JOBS = {'quick': 2, 'thorough': 16}
 REQUIRED_MONITORS = ('library_view_of_written_file', 'tokens_original_vs_written', 'second_round_trip', 'topology_original_vs_written', 'written_onto_source', 'written_through_copy')
-REQUIRED_CLASSES = ('shipped', 'repeated-section', 'trailing:empty', 'trailing:multiple', 'trailing:hash', 'trailing:multiple-last-empty',
+REQUIRED_CLASSES = ('size:over-64KiB', 'size:over-1MiB', 'size:over-2MiB', 'shipped', 'repeated-section', 'trailing:empty', 'trailing:multiple', 'trailing:hash', 'trailing:multiple-last-empty',
                     'header-text', 'decorated', 'no-final-newline', 'shipped-with-repeated-section', 'line-endings:dos',
                     'carrier:handle', 'carrier:handle-newline-untranslated', 'carrier:handle-relative-then-chdir', 'carrier:relative-path',
                     'recovery:failed-write-then-written-elsewhere')
@@ -247,6 +247,23 @@ def run_case(ctx, case):
     rng = ctx.rng('gen', i)
     text, truth = itpspec.gen_top(rng, n=int(rng.integers(1, 30)), repeated=(i % 3 == 0), decorate=(i % 4 != 0),
                                   trailing=('plain', 'single', 'empty', 'multiple', 'hash', 'nospace', 'multiple-last-empty', 'semicolons-only', 'hash-nospace'))
+    big = None
+    if i % (100 if ctx.tier == 'quick' else 1000) == 37:
+        # size: the file is longer than any read-ahead or buffer a reader may use (the shipped topologies end at 339 kB).
+        # Further sections (repeated names, content, comment and blank lines) are appended up to the size of the class; the
+        # generator's own ground truth no longer describes the file, the reference tokeniser does
+        big = (('over-64KiB', 1 << 16), ('over-1MiB', 1 << 20), ('over-2MiB', 1 << 21))[(i // 100) % 3]
+        parts, size, k = [text if text.endswith('\n') else text + '\n'], len(text), 0
+        while size <= big[1] + 4096:
+            name = ('dihedrals', 'angles', 'exclusions', 'position_restraints')[k % 4]     # (not bonds, constraints or pairs: those define the bond graph)
+            block = [f'[ {name} ]', f'; block {k}'] + \
+                    [f'{1 + (k + j) % 97:5d} {1 + (k + 2 * j) % 89:5d} {1 + j % 7:3d} {j * 0.25:9.3f}' + (f' ; {k}.{j}' if j % 9 == 0 else '')
+                     for j in range(400)] + ['']
+            blk = '\n'.join(block) + '\n'
+            parts.append(blk)
+            size += len(blk)
+            k += 1
+        text, truth = ''.join(parts), None
     path = os.path.join(_tmp['dir'], f'g{os.getpid()}.itp')
     dos = (i % 5 == 2)
     with open(path, 'w', newline='\r\n' if dos else None) as fh:          # every fifth file with DOS line endings
@@ -254,6 +271,11 @@ def run_case(ctx, case):
     if dos:
         ctx.hit('line-endings:dos')
     ctx.count('evaluations')
+    if big:
+        ctx.hit('size:' + big[0])
+        ctx.nontrivial(('size', big[0], i))
+        roundtrip(ctx, path, f'generated#{i}:{big[0]}', classes={'repeated-section', 'size:' + big[0]})
+        return
     for c in truth['classes']:
         ctx.hit('repeated-section' if c.startswith('repeated-section:') else c)
     if truth['classes'] - {'numbering:plain', 'trailing:plain'}:
